@@ -2,7 +2,7 @@
 """For seeded changes the property's own check missed: run related checks and record which one detects it."""
 import json, os, shutil, subprocess, sys, time
 SEEDED = "/verif/seeded"; WT = "/tmp/seedrun"
-REL = {"C01": ["C16", "C03", "C14", "C02"], "C02": ["C10", "C01", "C19"], "C03": ["C01", "C14"], "C04": ["C05", "C07", "C10"],
+REL = {"C01": ["C06", "C16", "C03", "C14", "C02"], "C02": ["C10", "C01", "C19"], "C03": ["C01", "C14"], "C04": ["C05", "C07", "C10"],
        "C05": ["C04", "C07"], "C06": ["C20", "C15", "C10"], "C07": ["C05"], "C08": ["C10", "C02", "C09"], "C09": ["C20", "C07"],
        "C10": ["C11"], "C11": ["C10", "C13"], "C12": ["C13", "C17"], "C13": ["C12", "C11"], "C14": ["C05", "C04", "C01", "C03"],
        "C15": ["C06"], "C16": ["C19", "C09", "C01"], "C17": ["C12"], "C18": ["C19", "C20"], "C19": ["C18", "C16"],
